@@ -163,6 +163,7 @@ func main() {
 		"Preds.lean":   genPreds,
 		"Sites.lean":   genSites,
 		"Atomic.lean":  genAtomic,
+		"Fanout.lean":  genFanout,
 	}
 	names := make([]string, 0, len(gens))
 	for n := range gens {
